@@ -148,6 +148,11 @@ func vttGenModel(r *fw.Rand, forWriter bool) vttModel {
 		blk = append(blk, "}")
 		m.Styles = append(m.Styles, blk)
 	}
+	if !forWriter && r.P(1, 8) {
+		// a STYLE block without any CSS (denotes nothing), somewhere among the others
+		k := r.Intn(len(m.Styles) + 1)
+		m.Styles = append(m.Styles[:k:k], append([][]string{{}}, m.Styles[k:]...)...)
+	}
 	for k := 0; k < r.Intn(4); k++ {
 		rg := vttRegion{ID: fmt.Sprintf("r%d", k)}
 		if r.Bool() {
